@@ -205,7 +205,7 @@ func (g *UndirectedMatrix) setWeightedEdge(e graph.Edge, weight float64) {
 	if int64(int(tid)) != tid {
 		panic("simple: unavailable to node ID for dense graph")
 	}
-	if g.nodes != nil {
+	if g.nodes != nil && g.has(fid) && g.has(tid) {
 		g.nodes[fid] = from
 		g.nodes[tid] = to
 	}
